@@ -248,6 +248,12 @@ func genInline(r *vh.Rand, name string) uField {
 		u.Inline, u.J5Kind, u.PType = "enum", "enum", 14
 		u.InOptions = vh.Pick(r, [][]string{{"A", "B"}, {"LOW", "MID", "HIGH"}, {"UNSPECIFIED", "ON"}, {"X"}})
 	}
+	// `array:object { .. }` / `map:object { .. }` (also oneof, enum): the anonymous schema is the item /
+	// value type of a repeated field
+	if r.Chance(35) {
+		u.Container = vh.Pick(r, []string{"array", "array", "map"})
+		u.Optional = !u.Required && r.Chance(10)
+	}
 	return u
 }
 
@@ -1657,6 +1663,9 @@ func countShape(res *vh.Result, e *entityDecl) {
 			switch {
 			case f.Inline != "":
 				kinds["inline_"+f.Inline] = true
+				if f.Container != "" {
+					kinds[f.Container+"_of_inline_"+f.Inline] = true
+				}
 			case f.Container != "":
 				kinds[f.Container] = true
 			case f.Ext != "":
